@@ -124,8 +124,12 @@ class Vector():
 			initial = tuple(initial)
 			_precomputed_data = initial
 
+		# Is there anything in `initial`? A Vector has no truth value (Vector.__bool__ raises), so
+		# Vector(some_vector) and Table({'a': some_vector}) must not test it with `if initial`.
+		has_items = len(initial) > 0 if isinstance(initial, Vector) else bool(initial)
+
 		# Check if we're creating a Table (all elements are vectors of same length)
-		if initial and all(isinstance(x, Vector) for x in initial):
+		if has_items and all(isinstance(x, Vector) for x in initial):
 			if len({len(x) for x in initial}) == 1:
 				from .table import Table
 				return Table(initial=initial, dtype=dtype, name=name, as_row=as_row)
@@ -137,7 +141,7 @@ class Vector():
 		
 		# Infer dtype if not provided
 		# (Safe to run now because 'initial' is definitely a tuple/list/reusable)
-		if dtype is None and initial:
+		if dtype is None and has_items:
 			dtype = infer_dtype(initial)
 		
 		# Dispatch to typed subclasses based on inferred dtype
